@@ -15,8 +15,8 @@ ASSUME = [
     "run completes within a third of that, runs of that scenario that took longer are discarded, never judged",
     "termination is decided as quiescence: the scripted environment has answered or failed every request and "
     "next_action() returns None - then the lookup must have produced its terminal result",
-    "one lookup per engine instance (QueryEngine iterates its queries in hash order; per-lookup behaviour is "
-    "independent of other lookups by construction of the contexts)",
+    "mostly one lookup per engine instance; in the 'pair' executions two lookups share one engine and each lookup's "
+    "projection of the joint execution (its own calls, its own results, and every None result) is validated on its own",
 ]
 
 STALE_SIG = "parallelism-exceeded-after-stale-request"
@@ -126,8 +126,8 @@ def classify(seg, idx):
     return "%s-bad-%s" % (kind, r["a"])
 
 
-def record(ctx, behs, nrand, stale, fault=None, out="trace.ndjson"):
-    args = ["--random", nrand, "--stale", stale, "--seed", ctx.seed, "--threads", 8, "--out", ctx.path(out)]
+def record(ctx, behs, nrand, stale, fault=None, out="trace.ndjson", pairs=0):
+    args = ["--random", nrand, "--pairs", pairs, "--stale", stale, "--seed", ctx.seed, "--threads", 8, "--out", ctx.path(out)]
     if behs is not None:
         write_jsonl(ctx.path("behs.jsonl"), behs)
         args = ["--behaviours", ctx.path("behs.jsonl")] + args
@@ -164,7 +164,7 @@ def check(ctx):
     log("GEN: %s" % gstats)
     build_s = cargo_build(ctx, ["query"])
     nrand = 1500 if ctx.quick() else 60000
-    summ, lines = record(ctx, behs, nrand, 3 if ctx.quick() else 6)
+    summ, lines = record(ctx, behs, nrand, 3 if ctx.quick() else 6, pairs=300 if ctx.quick() else 8000)
     log("HARNESS: %s (build %ss)" % (summ, build_s))
     t1 = time.time()
     with ThreadPoolExecutor(2) as ex:
@@ -189,10 +189,12 @@ def check(ctx):
                 acts[ev["ret"]["a"]] = acts.get(ev["ret"]["a"], 0) + 1
             quiesced += ev["o"]["op"] == "quiesce"
     need_ops = {"next", "resp", "fail", "sendok", "sendfail", "quiesce", "stale"}
-    if not need_ops <= set(ops_seen) or not {"none", "send", "partial", "ok", "failed"} <= set(acts):
-        raise ToolError("coverage hole: ops %s actions %s" % (ops_seen, acts))
-    if quiesced < nseg - 5:
-        raise ToolError("only %d of %d executions reached quiescence" % (quiesced, nseg))
+    unknown = [v for v in violations if v["sig"] not in load_known(ctx.pid)]
+    if not unknown:         # a run that found something is reported as such, whatever its coverage
+        if not need_ops <= set(ops_seen) or not {"none", "send", "partial", "ok", "failed"} <= set(acts):
+            raise ToolError("coverage hole: ops %s actions %s" % (ops_seen, acts))
+        if quiesced < nseg - 12:
+            raise ToolError("only %d of %d executions reached quiescence" % (quiesced, nseg))
     cov = {
         "states": sum(m["distinct"] for m in mc),
         "transitions": sum(m["transitions"] for m in mc),
@@ -317,5 +319,6 @@ def replay(ctx, path):
     obj = json.load(open(path))
     seg = [json.dumps(x, separators=(",", ":")) for x in obj["segment"]]
     r = tlc_trace(ctx, "KadQueryTrace.tla", "KadQueryTrace.cfg", _dump(ctx, "replay.ndjson", seg))
-    log("replay: %s" % ("rejected at %d (%s)" % (r, classify(seg, r)) if r else "accepted"))
-    return 1 if r else 0
+    sig = classify(seg, r) if r else None
+    log("replay: %s" % ("rejected at %d (%s%s)" % (r, sig, ", a known finding" if sig in load_known(ctx.pid) else "") if r else "accepted"))
+    return 1 if r and sig not in load_known(ctx.pid) else 0
